@@ -16,11 +16,11 @@ import (
 func init() { props["C03"] = c03 }
 
 type c03Req struct {
-	Name    string // description
-	Pkt     []byte
-	WF      bool   // well-formed channel request
-	Host    string // decoded server name (reference decoder), when WF
-	Port    uint16
+	Name string // description
+	Pkt  []byte
+	WF   bool   // well-formed channel request
+	Host string // decoded server name (reference decoder), when WF
+	Port uint16
 }
 
 // refDecodeName: UTF-16LE with proper surrogate handling; one trailing NUL is the terminator.
@@ -154,12 +154,12 @@ func c03(env *Env, rep *Report) {
 	users := []string{"", "alice", "bob", "alice-host"}
 	modes := []string{"any", "signed", "roundrobin", "unsigned", "", "bogus"}
 	type cse struct {
-		mode   string
-		token  bool
+		mode    string
+		token   bool
 		tokHost string
-		hosts  []string
-		user   string
-		req    c03Req
+		hosts   []string
+		user    string
+		req     c03Req
 	}
 	exec := func(c cse) (verdict, detail, obs string) {
 		g := GwCfg{TokenAuth: c.token, HostSelection: c.mode, Hosts: append([]string{}, c.hosts...), VerifyIP: true}
